@@ -66,6 +66,11 @@ type UJ struct {
 	K int    `json:"k2,omitempty"`
 	P *UAddr `clover:"addr" json:"a"`
 }
+type UJOpt struct {
+	Visits int    `clover:"n_visits,omitempty" json:",omitempty"`
+	Home   *UAddr `clover:"home_addr" json:",omitempty"`
+	Plain  string `json:",omitempty"`
+}
 type UNest struct {
 	In struct {
 		Deep UAddr `clover:"deep"`
@@ -119,7 +124,7 @@ type UDeep struct {
 
 var unmTypes = []reflect.Type{
 	reflect.TypeOf(UAddr{}), reflect.TypeOf(UBase{}), reflect.TypeOf(UA{}), reflect.TypeOf(UB{}), reflect.TypeOf(UC{}),
-	reflect.TypeOf(UD{}), reflect.TypeOf(UE{}), reflect.TypeOf(UJ{}), reflect.TypeOf(UNest{}), reflect.TypeOf(UMapPtr{}),
+	reflect.TypeOf(UD{}), reflect.TypeOf(UE{}), reflect.TypeOf(UJ{}), reflect.TypeOf(UJOpt{}), reflect.TypeOf(UNest{}), reflect.TypeOf(UMapPtr{}),
 	reflect.TypeOf(UOmit{}), reflect.TypeOf(UIface{}), reflect.TypeOf(UNums{}), reflect.TypeOf(UTime{}), reflect.TypeOf(UDeep{}),
 }
 
